@@ -11,7 +11,7 @@
 #include <cfloat>
 using namespace glmx;
 
-enum Kind { UNORM, SNORM, UINT_, SINT_, F11, F10, E5M9 /* mantissa of shared-exponent format */, E5X /* the exponent field */, RAW };
+enum Kind { UNORM, SNORM, UINT_, SINT_, F11, F10, F16, E5M9 /* mantissa of shared-exponent format */, E5X /* the exponent field */, RAW };
 struct Field { int off, w; Kind k; };
 struct Format {
   const char* name; int nf; Field f[4]; bool real;           // real: components are reals (normalised / small float)
@@ -30,6 +30,7 @@ static double ref_decode(const Field& f, uint64_t c) {
     case SINT_: return (double)sext(c, f.w);
     case F11: { int e = (int)(c >> 6), m = (int)(c & 63); if (c == 0) return 0; if (e == 31) return m ? NAN : INFINITY; return std::ldexp(1.0 + m / 64.0, e - 15); }
     case F10: { int e = (int)(c >> 5), m = (int)(c & 31); if (c == 0) return 0; if (e == 31) return m ? NAN : INFINITY; return std::ldexp(1.0 + m / 32.0, e - 15); }
+    case F16: { int sg = (int)(c >> 15) & 1, e = (int)(c >> 10) & 31, m = (int)(c & 1023); double v = e == 31 ? (m ? NAN : INFINITY) : e == 0 ? std::ldexp((double)m, -24) : std::ldexp(1024.0 + m, e - 25); return sg ? -v : v; }
     default: return (double)c;
   }
 }
@@ -38,6 +39,7 @@ static bool canonical(const Field& f, uint64_t c) {
     case SNORM: return c != (1ull << (f.w - 1));                 // all but the most negative code
     case F11: return (c >> 6) != 31;                             // finite codes
     case F10: return (c >> 5) != 31;
+    case F16: return ((c >> 10) & 31) != 31;
     default: return true;
   }
 }
@@ -69,6 +71,9 @@ static const Format FORMATS[] = {
   {"packUnorm3x5_1x1", 4, {{0, 5, UNORM}, {5, 5, UNORM}, {10, 5, UNORM}, {15, 1, UNORM}}, true, [](const double* c) -> uint64_t { return glm::packUnorm3x5_1x1(V4(c)); }, [](uint64_t p, double* o) { glm::vec4 v = glm::unpackUnorm3x5_1x1((glm::uint16)p); OUTV(v, 4) }},
   {"packUnorm2x3_1x2", 3, {{0, 3, UNORM}, {3, 3, UNORM}, {6, 2, UNORM}}, true, [](const double* c) -> uint64_t { return glm::packUnorm2x3_1x2(V3(c)); }, [](uint64_t p, double* o) { glm::vec3 v = glm::unpackUnorm2x3_1x2((glm::uint8)p); OUTV(v, 3) }},
   {"packF2x11_1x10", 3, {{0, 11, F11}, {11, 11, F11}, {22, 10, F10}}, true, [](const double* c) -> uint64_t { return glm::packF2x11_1x10(V3(c)); }, [](uint64_t p, double* o) { glm::vec3 v = glm::unpackF2x11_1x10((glm::uint32)p); OUTV(v, 3) }},
+  {"packHalf2x16", 2, {{0, 16, F16}, {16, 16, F16}}, true, [](const double* c) -> uint64_t { return glm::packHalf2x16(V2(c)); }, [](uint64_t p, double* o) { glm::vec2 v = glm::unpackHalf2x16((glm::uint)p); OUTV(v, 2) }},
+  {"packHalf1x16", 1, {{0, 16, F16}}, true, [](const double* c) -> uint64_t { return glm::packHalf1x16((float)c[0]); }, [](uint64_t p, double* o) { o[0] = glm::unpackHalf1x16((glm::uint16)p); }},
+  {"packHalf4x16", 4, {{0, 16, F16}, {16, 16, F16}, {32, 16, F16}, {48, 16, F16}}, true, [](const double* c) -> uint64_t { return glm::packHalf4x16(V4(c)); }, [](uint64_t p, double* o) { glm::vec4 v = glm::unpackHalf4x16(p); OUTV(v, 4) }},
   // templated families (float and double sources)
   {"packUnorm<u8,4,float>", 4, {{0, 8, UNORM}, {8, 8, UNORM}, {16, 8, UNORM}, {24, 8, UNORM}}, true, [](const double* c) -> uint64_t { glm::u8vec4 r = glm::packUnorm<glm::uint8>(V4(c)); return r[0] | (r[1] << 8) | (r[2] << 16) | ((uint64_t)r[3] << 24); }, [](uint64_t p, double* o) { glm::vec4 v = glm::unpackUnorm<float>(glm::u8vec4(p & 255, (p >> 8) & 255, (p >> 16) & 255, (p >> 24) & 255)); OUTV(v, 4) }},
   {"packUnorm<u16,3,double>", 3, {{0, 16, UNORM}, {16, 16, UNORM}, {32, 16, UNORM}}, true, [](const double* c) -> uint64_t { glm::u16vec3 r = glm::packUnorm<glm::uint16>(glm::dvec3(c[0], c[1], c[2])); return r[0] | ((uint64_t)r[1] << 16) | ((uint64_t)r[2] << 32); }, [](uint64_t p, double* o) { glm::dvec3 v = glm::unpackUnorm<double>(glm::u16vec3(p & 65535, (p >> 16) & 65535, (p >> 32) & 65535)); OUTV(v, 3) }},
@@ -93,6 +98,7 @@ enum { NFORMATS = sizeof(FORMATS) / sizeof(FORMATS[0]) };
 // ------------------------------------------------------------------ code sweep: [format, field, code, companion pattern]
 static uint64_t companion(const Field& f, int k) {
   if (k == 0) return 0; if (k == 1) return fmask(f.w);
+  if (f.k == F16) return 0x3555;
   uint64_t t = 0x2AB5A5A5A5A5A5A5ull & fmask(f.w);
   if (f.k == F11 && (t >> 6) == 31) t &= ~(1ull << 10); if (f.k == F10 && (t >> 5) == 31) t &= ~(1ull << 9);
   return t;
@@ -124,7 +130,11 @@ static void op_reals(const Case& c, Outcome& o) {
   double xc = (double)x < lo ? lo : (double)x > hi ? hi : (double)x; o.cls((double)x < lo ? 0 : (double)x > hi ? 2 : 1);
   // companions untouched (no cross-talk between fields)
   for (int j = 0; j < F.nf; ++j) if (j != fi && getf(p, F.f[j]) != getf(pb, F.f[j])) { std::snprintf(m, sizeof m, "%s: packing component %d disturbed field %d", F.name, fi, j); o.bad(1, m); return; }
-  if (f.k == UNORM || f.k == SNORM) {
+  if (f.k == F16) {   // signed half: only the in-range part of the statement applies here (overflow to infinity is decided by C07)
+    if (!(std::fabs((double)x) <= 65504.0)) { o.nontrivial = false; return; } o.cls(1); o.exp(b64((double)x));
+    double ax = std::fabs((double)x); int e; std::frexp(ax, &e); double mstep = ax < std::ldexp(1.0, -14) ? std::ldexp(1.0, -24) : std::ldexp(1.0, e - 1 - 10);
+    if (!(std::fabs(v - (double)x) <= mstep)) { std::snprintf(m, sizeof m, "%s: field %d decodes more than one mantissa step from x", F.name, fi); o.bad(8, m); return; }
+  } else if (f.k == UNORM || f.k == SNORM) {
     double steps = f.k == UNORM ? (double)fmask(f.w) : (f.w == 2 ? 1.0 : (double)fmask(f.w - 1)); double step = 1.0 / steps;
     o.exp(b64(xc)); double err = std::fabs(v - xc), tol = step / 2 + 2 * 5.97e-8 * (std::fabs(xc) + step);       // half a step (+ rounding of x*scale in float)
     if (!(err <= tol)) { std::snprintf(m, sizeof m, "%s: field %d decodes more than half a quantisation step from clamp(x)", F.name, fi); o.bad(2, m); return; }
@@ -176,7 +186,7 @@ static void op_rgbm(const Case& c, Outcome& o) {
 int main(int argc, char** argv) {
   Engine E; E.property = "C06";
   E.assumptions = {"small-float (11/10-bit) codes are interpreted as GLM documents them: exponent bias 15, implicit leading one for every non-zero code, exponent 31 = Inf/NaN; the statement constrains consistency, clamping, accuracy and layout, not subnormal semantics",
-                   "NaN is not a real: NaN pack inputs are outside the domain; half formats are decided by C07"};
+                   "NaN is not a real: NaN pack inputs are outside the domain; for half formats only codes, layout and in-range accuracy are checked here, rounding/overflow are decided by C07"};
   // code sweep domain: all (format, field, code) with width <= 16 complete; 32-bit fields over INT32_EDGE
   { std::vector<uint64_t> rowsv, rows32; Domain e32 = INT_EDGE(32);
     for (uint64_t fmt = 0; fmt < NFORMATS; ++fmt) for (int fi = 0; fi < FORMATS[fmt].nf; ++fi) for (int k = 0; k < 3; ++k) {
